@@ -180,3 +180,34 @@ theorem viewRange_eq (p : Bz) (hp : p ≠ []) (M : SMapB) (s e : Option Bytes) (
   | true => simp only [Bool.not_true, Bool.false_eq_true, if_false]; rw [List.map_reverse, hcore]
 
 end Iavl
+
+namespace Iavl
+open Std
+
+/-- **point reads through the view**: `prefixDB.Get(k)` reads `prefix ++ k` of the parent, which is the lookup of
+    `k` in the namespace's sub-map -/
+theorem viewGet_eq (p : Bz) (M : SMapB) (k : Bytes) : lookup (p ++ k) M = lookup k (subMap p M) := by
+  induction M with
+  | nil => rfl
+  | cons a M ih =>
+    obtain ⟨ak, av⟩ := a
+    simp only [lookup, subMap, List.filterMap_cons]
+    by_cases hpre : p <+: ak
+    · obtain ⟨t, rfl⟩ := hpre
+      have hpo : p.isPrefixOf (p ++ t) = true := List.isPrefixOf_iff_prefix.mpr (List.prefix_append p t)
+      simp only [hpo, if_true, stripP, List.drop_left, lookup, compare_append_left]
+      split
+      · rfl
+      · exact ih
+    · have hpo : p.isPrefixOf ak = false := by
+        cases h : p.isPrefixOf ak with
+        | false => rfl
+        | true => exact absurd (List.isPrefixOf_iff_prefix.mp h) hpre
+      have hne : compare (p ++ k) ak ≠ .eq := by
+        intro hc
+        have : p ++ k = ak := Std.LawfulEqCmp.eq_of_compare hc
+        exact hpre ⟨k, this⟩
+      simp only [hpo, Bool.false_eq_true, if_false, hne]
+      exact ih
+
+end Iavl
